@@ -1,5 +1,4 @@
-import IofloModel.Model.SkedF64
-import IofloModel.Drv.Proto
+import IofloModel.Drv.SkedProto
 /-!
 driver for the scheduler model (engine `sked`)
 
@@ -14,75 +13,10 @@ numbers   mode `x`: `p/q` (exact rational);  modes `f` (hardware `Float`) and `s
 event     `<L|F> <tick> <id> <ctl> <stamp> <result> <periodAfter>`   result: `y<status 0-4>` | `stop` | `raise:<exc>`
 -/
 namespace Ioflo.Drv.Sked
-open Ioflo.Proto Ioflo.Sked
-
-abbrev P := StateT (List String) Option
-
-def tok : P String := do
-  match (← get) with
-  | [] => failure
-  | t :: ts => set ts; pure t
-
-def nat : P Nat := do
-  let t ← tok
-  match t.toNat? with
-  | some n => pure n
-  | none => failure
-
-def many {α : Type} (p : P α) : Nat → P (List α)
-  | 0 => pure []
-  | n+1 => do let a ← p; let as ← many p n; pure (a :: as)
-
-def counted {α : Type} (p : P α) : P (List α) := do let n ← nat; many p n
-
-def ratOfString (s : String) : Option Rat :=
-  match s.splitOn "/" with
-  | [a, b] =>
-    match a.toInt?, b.toNat? with
-    | some p, some q => if q = 0 then none else some (mkRat p q)
-    | _, _ => none
-  | _ => none
-
-def hexNat (s : String) : Option Nat :=
-  s.toList.foldl (fun acc c => match acc, hexDigit? c with
-    | some a, some d => some (a * 16 + d) | _, _ => none) (some 0)
-
-def floatOfString (s : String) : Option Float :=
-  if s.length ≠ 16 then none else (hexNat s).map (fun n => Float.ofBits n.toUInt64)
-
-def f64OfString (s : String) : Option F64 :=
-  if s.length ≠ 16 then none else (hexNat s).bind F64.ofBits?
-def f64ToString (x : F64) : String := natToHex 16 x.toBits
-
-def ratToString (r : Rat) : String := toString r.num ++ "/" ++ toString r.den
-def floatToString (f : Float) : String := natToHex 16 f.toBits.toNat
-
-def control : P Control := do
-  match (← tok) with
-  | "0" => pure .stop | "1" => pure .start | "2" => pure .run | "3" => pure .abort
-  | "4" => pure .ready | "5" => pure .other | _ => failure
-
-def exc : P Exc := do
-  let k ← tok
-  let n ← tok
-  match k with
-  | "k" => pure .keyboardInterrupt | "s" => pure .systemExit
-  | "e" => pure (.exception n) | "b" => pure (.baseException n) | _ => failure
+open Ioflo.Proto Ioflo.Sked Ioflo.Drv.SkedProto
 
 section
 variable {τ : Type} (num : String → Option τ)
-
-def number : P τ := do
-  match num (← tok) with
-  | some x => pure x
-  | none => failure
-
-def optNumber : P (Option τ) := do
-  let t ← tok
-  if t = "-" then pure none else
-  match num t with
-  | some x => pure (some x)
-  | none => failure
 
 def act : P (Act τ) := do
   match (← tok) with
@@ -107,12 +41,6 @@ def tasker : P (Tk τ) := do
     | none => failure : P (Option (Nat × List (Act τ))))
   pure { active := active, period := p, script := script, tail := tail }
 
-def house : P House := do
-  let f ← counted nat
-  let m ← counted nat
-  let b ← counted nat
-  pure { fronts := f, mids := m, backs := b }
-
 def config : P (Config τ) := do
   let p ← number num
   let s ← number num
@@ -120,26 +48,6 @@ def config : P (Config τ) := do
   let ts ← counted (tasker num)
   pure { period := p, stamp := s, houses := hs, taskers := ts }
 end
-
-def ctlCode : Control → String
-  | .stop => "0" | .start => "1" | .run => "2" | .abort => "3" | .ready => "4" | .other => "5"
-def statusCode : Status → String
-  | .stopped => "0" | .started => "1" | .running => "2" | .aborted => "3" | .readied => "4"
-def excName : Exc → String
-  | .keyboardInterrupt => "KeyboardInterrupt" | .systemExit => "SystemExit"
-  | .exception n => n | .baseException n => n
-  | .indexError => "IndexError" | .unboundLocalError => "UnboundLocalError"
-def sentCode : Sent → String
-  | .yielded s => "y" ++ statusCode s | .stopIteration => "stop" | .raised e => "raise:" ++ excName e
-def endingCode : Ending → String
-  | .noReady => "noready" | .noMore => "nomore" | .interrupted => "interrupted"
-  | .raised e => "raised:" ++ excName e | .fuel => "fuel"
-def outcomeCode : Outcome → String
-  | .returned e => "returned " ++ endingCode e | .raised e => "raised " ++ excName e | .outOfFuel => "fuel"
-
-def showEvent {τ : Type} (sh : τ → String) (e : Event τ) : String :=
-  " ".intercalate [match e.phase with | .loop => "L" | .final => "F", toString e.tick, toString e.id,
-    ctlCode e.control, sh e.stamp, sentCode e.result, sh e.periodAfter]
 
 def showRun {τ : Type} [TimeLike τ] (sh : τ → String) (c : Config τ) (fuel : Nat) : String :=
   if !c.wellFormed then "bad-op" else
